@@ -558,7 +558,31 @@ func TestC06Payload(t *testing.T) {
 			labels = append(labels, "after-another-request")
 		}
 
-		if p := oracle.Try(func() { res, err = jsonapi.UnmarshalResource([]byte(pc.Text), ss.Schema) }); p != nil {
+		// The payload on its own, or as the second member of a collection
+		// whose first member is of any type of the schema (each member is
+		// decoded against its own type).
+		unmarshal := func() { res, err = jsonapi.UnmarshalResource([]byte(pc.Text), ss.Schema) }
+
+		if rapid.IntRange(0, 3).Draw(t, "asmember") == 0 {
+			first := ss.Types[rapid.IntRange(0, len(ss.Types)-1).Draw(t, "firsttype")].Name
+			text := `[{"id":"first","type":` + gen.QuoteJSON(first) + `},` + pc.Text + `]`
+			labels = append(labels, "as-collection-member")
+
+			unmarshal = func() {
+				var col jsonapi.Collection
+
+				col, err = jsonapi.UnmarshalCollection([]byte(text), ss.Schema)
+				if err == nil {
+					if col == nil || col.Len() != 2 {
+						t.Fatalf("C06 violated: UnmarshalCollection accepted an array of two resource objects and returned %v\npayload: %s", col, text)
+					}
+
+					res = col.At(1)
+				}
+			}
+		}
+
+		if p := oracle.Try(unmarshal); p != nil {
 			for _, a := range ts.Attrs {
 				if l, ok := pc.Attrs[a.Name]; ok && bytesPanicKnown(a, l.Text, p) && kf.Known(sigBytesPanic) {
 					r.Excluded(sigBytesPanic)
